@@ -217,7 +217,10 @@ def rule_raisetypes(ctx):
                 allowed = {"IOError", "OSError"}
             yield ob("C14.RAISETYPES", f, "%s:raise@%d" % (f.qual, i), r.exc in allowed, "raises %s (documented: %s)" % (r.exc, "/".join(sorted(allowed))), node=r.node)
         for i, a in enumerate(s.by_kind("assert")):
-            ok_assert = f.qual in ("chord.rotate_bitmap_to_root",)
+            cnd = a.d.get("cond")
+            one_d = cnd is not None and cnd.op == "cmp" and cnd.a[0] == "==" and any(tm.is_const(z, 1) for z in cnd.a[1:]) and any(z.op == "attr" and z.a[1] == "ndim" for z in cnd.a[1:])
+            # (the reviewed 1-D assertion of the rotation helper, also when both rotation functions share it through a helper)
+            ok_assert = f.qual in ("chord.rotate_bitmap_to_root",) or (f.qual == "chord.rotate_bitmaps_to_roots" and one_d)
             yield ob("C14.RAISETYPES", f, "%s:assert@%d" % (f.qual, i), ok_assert, "assert statement (AssertionError)%s" % (" - reviewed: helper documented for 1-D input only" if ok_assert else ""), node=a.node)
 
 
